@@ -59,7 +59,8 @@ PROPS = {
         assumptions=["Bounded (ids/lengths < 2^32, indices < 256, strings valid UTF-8) is exactly what the Rust types can hold"],
     ),
     'C14': dict(
-        streams=[dict(name='codec', quick=1500, thorough=15000, filter=only('C14:'))],
+        streams=[dict(name='codec', quick=1500, thorough=15000, filter=only('C14:')),
+                 dict(name='json', quick=500, thorough=5000, filter=only('C14:'))],
         rule=CODEC_RULE + " C14 clauses on dec cases: no panic (catch_unwind; an abort kills the harness and is reported as CRASH), peak allocation <= 1024*len + 131072 bytes (counting allocator), an accepted input re-encodes to exactly the consumed bytes (library and layout encoder), resolve(len), resolve(len+7), resolve(u32::MAX) answer None.",
         trusted_base=COMMON_TB + ["never panics / never aborts / memory proportional to input are run-time facts observed on the generated inputs, not proved"],
         assumptions=["allocation bound constants 1024 and 131072 (the codec pre-allocates up to 16 KiB regardless of input)"],
@@ -99,5 +100,12 @@ PROPS = {
         rule=REGISTRY_RULE + " C11 oracle: every Registry::types() snapshot contains the previous one unchanged; the same history replayed gives byte-identical encode(); the distinct roots registered one by one in history order, in 3 (thorough 5) random permutations and reversed give registries of the same size that are rooted-isomorphic (Spec.iso from the returned ids) to the original.",
         trusted_base=COMMON_TB,
         assumptions=["TypeId ordering plays no role (BTreeMap<TypeId,_> is only looked up, never iterated)"],
+    ),
+    'C08': dict(
+        streams=[dict(name='json', quick=800, thorough=8000, filter=only('C08:'))],
+        rule="generated registries (arbitrary and well-formed, every definition kind, optional parts present and absent, empty/long/multi-byte strings) through the real serde_json::to_value (ser cases: shape predicate, library round trip through Value and through text, independent reader) and 5 (thorough 10) structural mutations of each document (member removed/added/renamed incl. type_name, bitSequence, unknown keys; null; numbers at 255/256/2^32-1/2^32, negative, fractional; strings; arrays dropped/duplicated; object replaced by positional array) plus 18 hand-written documents (optional members omitted / explicitly empty / null) through the real from_value under catch_unwind, compared with the model reader. Inputs using serde's positional-array form of structs or the {\"bool\": null} form of unit variants are UNMODELLED (counted).",
+        trusted_base=COMMON_TB + ["serde / serde_json 1.0 are modelled (SIM.Model.Json), tied by the differential runs only"],
+        assumptions=["key order of JSON objects is not part of the property (canonicalised by sorting)",
+                     "the payload of 'bitsequence' carries bit_store_type / bit_order_type (Rust field names), accepted by the shape predicate there and nowhere else"],
     ),
 }
